@@ -47,10 +47,13 @@ type Spec struct {
 	TokenLife    int      `json:"token_life,omitempty"`
 	Discovery    bool     `json:"discovery,omitempty"`          // endpoints from configuration_uri (in-process canned provider)
 	RichDiscovery bool    `json:"rich_discovery,omitempty"`     // ... whose document carries the full optional metadata with uncommon values
+	OddDiscovery  int     `json:"odd_discovery,omitempty"`      // ... 1+k: document k of OddDiscoveryDocs()
 	NoLogoutRedirect bool `json:"no_logout_redirect,omitempty"` // logout.redirect_uri not configured (must be discovered)
 	// Replicas (Redis only): 2 = two service replicas (two store instances) on one Redis server; a request names
 	// the replica that serves it (sequential histories only)
 	Replicas int `json:"replicas,omitempty"`
+	// Shapes marks a search over honest provider answer shapes (the opts builders of the properties read it)
+	Shapes bool `json:"shapes,omitempty"`
 }
 
 const (
@@ -366,6 +369,9 @@ const DiscoveryBase2 = "http://disc2.idp.test"
 
 // DiscBaseOf is the base URL of the discovery provider of a world.
 func DiscBaseOf(spec Spec) string {
+	if spec.OddDiscovery > 0 {
+		return fmt.Sprintf("http://disc-odd-%d.idp.test", spec.OddDiscovery-1)
+	}
 	if spec.RichDiscovery {
 		return DiscoveryBase2
 	}
@@ -378,7 +384,11 @@ var discOnce sync.Once
 func EnsureDiscoveryNet() {
 	discOnce.Do(func() {
 		InitKeys()
-		InstallCannedNet(map[string]Responder{"disc.idp.test": CannedIdP(DiscoveryBase, nil), "disc2.idp.test": CannedIdPDoc(DiscoveryBase2, nil, true)}, nil)
+		hosts := map[string]Responder{"disc.idp.test": CannedIdP(DiscoveryBase, nil), "disc2.idp.test": CannedIdPDoc(DiscoveryBase2, nil, true)}
+		for k, d := range OddDiscoveryDocs() {
+			hosts[fmt.Sprintf("disc-odd-%d.idp.test", k)] = CannedDoc(d.Doc)
+		}
+		InstallCannedNet(hosts, nil)
 	})
 }
 
@@ -399,18 +409,27 @@ func (w *World) ResyncGhost() {
 	}
 	w.redisQuiet = true
 	defer func() { w.redisQuiet = false }()
+	// (by session id through the store's own read methods, not by Redis key: how a store names its keys is its business)
+	ids := map[string]bool{"attackerchosenid": true}
+	for _, sid := range w.Gen.SIDs {
+		ids[sid] = true
+	}
+	for sid := range w.Store.Ghost {
+		ids[sid] = true
+	}
 	ghost := map[string]*GhostSession{}
-	for _, k := range w.Mini.Keys() {
+	for sid := range ids {
+		if sid == "" || RedisKeyFor(w.Mini, 0, sid) == "" {
+			continue
+		}
 		g := &GhostSession{}
-		if t, err := w.Raw.GetTokenResponse(context.Background(), k); err == nil && t != nil {
+		if t, err := w.Raw.GetTokenResponse(context.Background(), sid); err == nil && t != nil {
 			g.Tokens = t
 		}
-		if a, err := w.Raw.GetAuthorizationState(context.Background(), k); err == nil && a != nil {
+		if a, err := w.Raw.GetAuthorizationState(context.Background(), sid); err == nil && a != nil {
 			g.State = a
 		}
-		if w.Mini.Exists(k) {
-			ghost[k] = g
-		}
+		ghost[sid] = g
 	}
 	w.Store.Ghost = ghost
 }
@@ -467,6 +486,9 @@ type Req struct {
 	Host      string `json:"host,omitempty"`
 	Scheme    string `json:"scheme,omitempty"`
 	Replica   int    `json:"replica,omitempty"` // which service replica serves the request (worlds with Spec.Replicas == 2)
+	// CookieForm: shape of the Cookie header around the session cookie, "{C}" standing for name=value - what browsers
+	// really send next to it (other applications' cookies, a trailing semicolon, a pair without value)
+	CookieForm string `json:"cookie_form,omitempty"`
 }
 
 // Result is a parsed CheckResponse.
@@ -511,6 +533,8 @@ func (w *World) Envoy(r Req) *envoy.CheckRequest {
 	h := map[string]string{":authority": host, ":path": r.Path, ":method": "GET"}
 	if r.RawCookie != "" {
 		h["cookie"] = r.RawCookie
+	} else if r.Cookie != "" && r.CookieForm != "" {
+		h["cookie"] = strings.ReplaceAll(r.CookieForm, "{C}", CookieName(w.Spec.CookiePrefix)+"="+r.Cookie)
 	} else if r.Cookie != "" {
 		h["cookie"] = "other=1; " + CookieName(w.Spec.CookiePrefix) + "=" + r.Cookie
 	}
@@ -610,9 +634,12 @@ func ParseResponse(resp *envoy.CheckResponse) Result {
 	switch b := resp.HttpResponse.(type) {
 	case *envoy.CheckResponse_OkResponse:
 		if !res.OK {
+			// Envoy answers the browser from denied_response only; an ok_response left attached to a non-OK status
+			// goes nowhere (neither upstream nor to the browser)
 			res.WellFormed = "non-OK status with OkResponse body"
+		} else {
+			add(b.OkResponse.GetHeaders())
 		}
-		add(b.OkResponse.GetHeaders())
 		sort.Slice(res.Headers, func(i, j int) bool { return res.Headers[i][0] < res.Headers[j][0] })
 	case *envoy.CheckResponse_DeniedResponse:
 		if res.OK {
